@@ -5,6 +5,7 @@ import NxProofs.Sys
 import NxProofs.Duplex
 import NxProofs.HandshakeServer
 import NxProofs.HandshakeClient
+import NxProofs.HandshakeAcks
 import NxProofs.Liveness
 import NxProofs.Unreliable
 import NxProps.C04
@@ -589,8 +590,9 @@ hypothesis left is that the two ends hold equal substream keys and cipher settin
 reaching both ends (C05 / C16); without credentials it is proved too (`handshake_leaves_established_without_credentials`: the
 handshake never touches keys or cipher setting, both ends keep the default key). Besides the theorem, the kernel checks closed
 configurations (`handshakeRun`) and the L1 driver evaluates `establishedB` on the model endpoints after every replayed REAL
-handshake (`est`). Not covered by the theorem: retransmitted SYN / CONNECT packets and duplicate answers (the straight-line
-handshake only; the probe and the replays see the others). -/
+handshake (`est`). `handshake_any_packets_leaves_established` is the same for ANY sequence of SYN / CONNECT packets handed to the client (duplicates,
+reordering, crafted ones). Not covered by the theorems: the client's own retransmission timers firing during the handshake (the probe and
+the replays see those). -/
 
 open Nx.L1 Nx.Prudp in
 /-- **the server's half, for every configuration**: the connection object `process_connect` registers for a CONNECT from a peer it
@@ -654,6 +656,71 @@ theorem handshake_leaves_established_without_credentials (envC envS : Env) (vers
     simp only [clientKeys, List.getElem?_map]
     rw [replicate_get _ _ _ (by omega), replicate_get _ _ _ (by omega)]
   · rw [hson, hcon, htr]
+
+open Nx.L1 Nx.Prudp in
+/-- **the handshake theorem for ANY handshake packets at the client**: after `handshake()` the client is handed any sequence of SYN
+    and CONNECT packets — genuine, duplicated, reordered, late, crafted with any parameters and signatures, any number of them —
+    and then `handshake()` resumes (`clientRun`; excluded: the step that made the client CONNECTED raised, i.e. the CONNECT could not
+    be encoded). If the client ends up CONNECTED and the server registered a connection for a CONNECT from this peer, the two are
+    `Established` towards each other on every substream, given equal substream keys and cipher setting (see
+    `handshake_leaves_established_without_credentials` for when that is a theorem too). The CONNECT went out exactly once; a second
+    SYN/ACK, whatever it says, changed nothing (`C07.late_synack_changes_nothing`). -/
+theorem handshake_any_packets_leaves_established (envC envS : Env) (version : Option Nat) (u chk sid : Nat) (la : Addr) (lp lt : Nat) (ra : Addr) (rp rt : Nat)
+    (t0 t3 : Time) (creds : Option Creds) (xs : List HsPkt) (c' : Conn)
+    (hr : clientRun envC ((Conn.new envC version u chk sid la lp lt ra rp rt).handshake envC t0 creds).c xs = some c')
+    (now : Time) (rnd : Rnd) (s : ServerStream) (con : Packet) (addr : Addr)
+    (hnew : clientLookup (addr, con.sourcePort, con.sourceType) s.clients = none) (cs : Conn)
+    (hreg : clientLookup (addr, con.sourcePort, con.sourceType) (s.processConnect envS now rnd true con addr).s.clients = some cs)
+    (sub : Nat) (hsubC : sub ≤ envC.s.maxSubstreamId) (hsubS : sub ≤ envS.s.maxSubstreamId)
+    (hconn : (c'.resumeHandshake t3).c.state = STATE_CONNECTED)
+    (hk : ((c'.resumeHandshake t3).c.relCiphers[sub]?).map StreamCipher.key = (cs.relCiphers[sub]?).map StreamCipher.key)
+    (hon : cs.cipherOn = (c'.resumeHandshake t3).c.cipherOn) :
+    Established sub (if sub = 0 then 2 else 1) (c'.resumeHandshake t3).c cs ∧ Established sub 1 cs (c'.resumeHandshake t3).c :=
+  established_of_halves sub _ cs
+    (client_half_any_packets envC version u chk sid la lp lt ra rp rt t0 t3 creds xs c' hr sub hsubC hconn).1
+    (server_half_established envS now rnd true s con addr hnew cs hreg sub hsubS) hk hon
+
+/-! non-vacuity of `handshake_any_packets_leaves_established`: the client is handed the CONNECT/ACK too early (refused while
+    CONNECTING), the genuine SYN/ACK, its duplicate, a crafted SYN/ACK with other parameters and another connection signature, the
+    CONNECT/ACK, its duplicate, a late SYN/ACK and the crafted one again: `clientRun` succeeds, the client is CONNECTED with the
+    parameters of the GENUINE SYN/ACK, its send counters are [2, 1] (one CONNECT), and the two ends are `Established` both ways on both
+    substreams -/
+open Nx.L1 Nx.Prudp in
+def hsPkt? (now : Time) (p : Packet) : Option HsPkt :=
+  if h : p.type = TYPE_SYN then some ⟨now, p, Or.inl h⟩ else if h2 : p.type = TYPE_CONNECT then some ⟨now, p, Or.inr h2⟩ else none
+
+open Nx.L1 Nx.Prudp in
+def handshakeRunNoisy (env : Env) (cAddr sAddr : Addr) : Option (Conn × Conn) :=
+  let c0 := Conn.new env (some 1) 1 2 3 cAddr 15 10 sAddr 1 10
+  let r1 := c0.handshake env 0 none
+  let em (outs : List SOut) : List Packet := outs.filterMap (fun o => match o with | .emit _ p _ => some p | _ => none)
+  match emitted r1 with
+  | [syn] =>
+    let s0 : ServerStream := { key := none, supFuncs := 0, maxSub := 1, minorVer := 0, addr := sAddr, port := 1, type := 10 }
+    let sr1 := s0.handle env 1 {} true syn cAddr
+    match em sr1.outs with
+    | [synAck] =>
+      match emitted (r1.c.handle env 2 synAck) with
+      | [con] =>
+        let sr2 := sr1.s.handle env 3 { localSessionId := 9 } true con cAddr
+        match em sr2.outs, clientLookup (cAddr, 15, 10) sr2.s.clients with
+        | [conAck], some cS =>
+          let crafted : Packet := { synAck with maxSubstreamId := 0, connectionSignature := some [9, 9, 9, 9] }
+          match [hsPkt? 1 conAck, hsPkt? 2 synAck, hsPkt? 3 synAck, hsPkt? 3 crafted, hsPkt? 4 conAck, hsPkt? 5 conAck,
+                 hsPkt? 6 synAck, hsPkt? 6 crafted].mapM id with
+          | some xs => (clientRun env r1.c xs).map (fun c' => ((c'.resumeHandshake 7).c, cS))
+          | none => none
+        | _, _ => none
+      | _ => none
+    | _ => none
+  | _ => none
+
+open Nx.L1 Nx.Prudp in
+example :
+    let env : Env := { C04.toyEnv with s := { fragmentSize := 2, transport := TRANSPORT_TCP, maxSubstreamId := 1 } }
+    (handshakeRunNoisy env ("10.0.0.2", 1) ("10.0.0.1", 2)).map (fun (c, s) =>
+      (c.state == STATE_CONNECTED) && (c.counters == [2, 1]) && (c.maxSub == 1) && establishedB 0 2 c s && establishedB 0 1 s c &&
+        establishedB 1 1 c s && establishedB 1 1 s c) = some true := by decide +kernel
 
 /-! non-vacuity of `ClientReady`: the client the modelled handshake produces has every field of it (substreams 0 and 1) -/
 open Nx.L1 Nx.Prudp in
